@@ -18,20 +18,29 @@
                                     and the effective volumes, i.e. the transactions table entirely (a dry run consumes
                                     moves.seq values on the source: the copy then renumbers seq, which no read exposes; the
                                     tie compares moves modulo seq on every case);
-     C11_roundtrip_accounts_partial no SET/DELETE_METADATA operation on accounts in the history (account metadata given with
-                                    transactions is allowed): additionally first usage and updated_at, i.e. the accounts table
-                                    entirely, and the account metadata history;
+     C11_roundtrip_accounts_partial no DELETE_METADATA operation on accounts in the history (SET_METADATA on accounts and account
+                                    metadata given with transactions are allowed: since the repair a33853d importLog replays the
+                                    upsert of the write path dated at the log): additionally first usage and updated_at, i.e. the
+                                    accounts table entirely, and the account metadata history;
      C11_roundtrip_tables_partial   both: all seven tables are identical.
-   REFUTED without the accounts hypothesis: C11_refuted_first_usage (SET_METADATA on an account lowers first_usage to the log
-     date), C11_refuted_updated_at (DELETE_METADATA on an account is dated at the import, also in the metadata history).
+   REFUTED without the accounts hypothesis: C11_refuted_updated_at (DELETE_METADATA on an account is dated at the import,
+     also in the metadata history).
+   LEDGERS WITH SCHEMAS (Ledger/SchemaCtrl.v histories: schema inserts with chart default metadata and templates, writes under a
+     known or no schema version, strict / audit; model Ledger/ImportSchema.v, where importLog resolves the schema PER LOG):
+     C11_roundtrip_schemas, for every enforcement mode, history and import time, no hypothesis: accepted, and the copy has the
+     source's schemas table, INSERTED_SCHEMA logs and per-log schema versions, volumes, transactions (all columns but effective
+     volumes), transaction metadata history, logs, and row by row the address / current metadata (chart defaults included) /
+     insertion date of every account.
    Writability: C11_writable_single (facade: state flip, log id = max + 1, transaction id = max + 1; an element of a
      non-atomic bulk is such a write); C11_writable_atomic (since the repair fixes/01-facade-begintx the atomic bulk runs the
      same protocol: a one-element bulk IS the facade write); the behaviour before the repair (S-11: never-resynchronised
      sequences) is kept as C11_unrepaired_atomic_writable / C11_unrepaired_atomic_log_id. *)
 From Coq Require Import List ZArith String Bool Ascii Lia Sorted.
-From LV Require Import Base.Util Base.Json Ledger.Types Ledger.Core Ledger.Bulk Ledger.Invariants Ledger.HashChain Ledger.Import Ledger.ImportProofs Ledger.ImportSim.
+From LV Require Import Base.Util Base.Json Ledger.Types Ledger.Core Ledger.Bulk Ledger.Invariants Ledger.HashChain Ledger.Chart Ledger.SchemaCtrl
+                       Ledger.Import Ledger.ImportProofs Ledger.ImportSim Ledger.ImportSchema Ledger.ImportSchemaProofs.
 Import ListNotations.
 Open Scope Z_scope.
+Open Scope list_scope.
 
 (* hashes: for EVERY hash function H and trigger pre-image, every feature set and history: feeding the exported (log, hash)
    rows of the source, in order, to the hash comparison of importLog on an empty copy accepts all of them and rebuilds
@@ -93,7 +102,7 @@ Qed.
 Print Assumptions C11_roundtrip_moves.
 
 (* accounts (metadata, first usage, insertion date, updated_at) and their metadata history: histories without
-   SET/DELETE_METADATA operations on accounts; without the hypothesis: C11_refuted_first_usage, C11_refuted_updated_at *)
+   DELETE_METADATA operations on accounts; without the hypothesis: C11_refuted_updated_at *)
 Theorem C11_roundtrip_accounts_partial : forall (H : bytes -> bytes) pre f h now,
   (forall p l, pre p l <> None) -> no_acc_meta_ops h ->
   let a := source H pre f h in
@@ -120,19 +129,39 @@ Proof.
 Qed.
 Print Assumptions C11_roundtrip_tables_partial.
 
+(* LEDGERS WITH SCHEMAS.  For every regexp engine, feature set, enforcement mode, history of schema inserts and writes
+   (with a known / unknown / no schema version, templates, dry runs, idempotent replays) and import time: Export then Import
+   into the pristine ledger is accepted and the copy reproduces the schemas table, the INSERTED_SCHEMA logs, the schema
+   version stored with every log, and the base tables as in C11_roundtrip (accounts: address, current metadata INCLUDING the
+   chart defaults the source gave them - and no other -, insertion date).  importLog resolves the schema per log. *)
+Theorem C11_roundtrip_schemas : forall re_valid re_match f m h now,
+  exists b, sroundtrip re_valid re_match f m h now = (srun re_valid re_match f m h, b, None) /\
+    let a := srun re_valid re_match f m h in
+    ss_schemas b = ss_schemas a /\ ss_slogs b = ss_slogs a /\ ss_logver b = ss_logver a /\
+    s_vols (ss_base b) = s_vols (ss_base a) /\
+    map tx_core (s_txs (ss_base b)) = map tx_core (s_txs (ss_base a)) /\
+    s_thist (ss_base b) = s_thist (ss_base a) /\
+    s_logs (ss_base b) = s_logs (ss_base a) /\
+    map av (s_accounts (ss_base b)) = map av (s_accounts (ss_base a)).
+Proof.
+  intros re_valid re_match f m h now. destruct (simp_roundtrip re_valid re_match f m h now) as (b & E & [S A B0 C]).
+  exists b. split; [exact E|]. destruct S as [Hv Ht Hh Hl _ _ Hav _]. repeat split; assumption.
+Qed.
+Print Assumptions C11_roundtrip_schemas.
+
 (* writable through the facade (single request = element of a non-atomic bulk): the first committed write on the
    still-initializing copy flips it to in-use; its log id is max(stored log ids) + 1 and the id of the transaction it creates is max(stored transaction ids) + 1 *)
 Theorem C11_writable_single : forall (H : bytes -> bytes) pre f now b o b' lid tid,
-  i_l b = Initializing -> o_dry o = false -> w_single H pre f now b o = (b', Some (ROk lid tid false)) ->
+  coherent b -> i_l b = Initializing -> o_dry o = false -> w_single H pre f now b o = (b', Some (ROk lid tid false)) ->
   i_l b' = InUse /\
   (forall m, max_id l_id (s_logs (i_s b)) = Some m -> lid = m + 1) /\
   (forall t m, tid = Some t -> max_id t_id (s_txs (i_s b)) = Some m -> t = m + 1) /\
   (forall l, In l (s_logs (i_s b)) -> l_id l < lid) /\
   exists l, s_logs (i_s b') = s_logs (i_s b) ++ [l] /\ l_id l = lid.
 Proof.
-  intros H pre f now b o b' lid tid El Hd E.
-  destruct (single_after_import_fresh_log H pre f now b o b' lid tid El Hd E) as (A & B0 & C).
-  destruct (single_after_import_next_ids H pre f now b o b' lid tid El Hd E) as (D & D').
+  intros H pre f now b o b' lid tid Co El Hd E.
+  destruct (single_after_import_fresh_log H pre f now b o b' lid tid Co El Hd E) as (A & B0 & C).
+  destruct (single_after_import_next_ids H pre f now b o b' lid tid Co El Hd E) as (D & D').
   repeat split; assumption.
 Qed.
 Print Assumptions C11_writable_single.
@@ -174,11 +203,12 @@ Qed.
 Print Assumptions C11_refuted_updated_at.
 
 (* ATOMIC bulk, since the repair fixes/01-facade-begintx (the facade overrides BeginTX): a bulk of one element on the
-   still-initializing copy IS the facade write of that element: same tables, same hash column, the ledger in-use, and by
+   still-initializing copy IS the facade write of that element: same tables, same hash column, the ledger ROW in-use (only the
+   facade's cached state is left as it was: BeginTX does not touch it), and by
    C11_writable_single log id = max + 1, transaction id = max + 1 *)
 Theorem C11_writable_atomic : forall (H : bytes -> bytes) pre f now b o s' lid tid,
-  i_l b = Initializing -> o_dry o = false -> step f now (resync (i_s b)) o = SR s' (ROk lid tid false) ->
-  w_atomic H pre f now b [o] = (fst (w_single H pre f now b o), AResults [ARes (BRes (Some (ROk lid tid false)))]).
+  coherent b -> i_l b = Initializing -> o_dry o = false -> step f now (resync (i_s b)) o = SR s' (ROk lid tid false) ->
+  w_atomic H pre f now b [o] = (with_cache (fst (w_single H pre f now b o)) Initializing, AResults [ARes (BRes (Some (ROk lid tid false)))]).
 Proof. intros H pre f now b o s' lid tid. apply atomic_single_element. Qed.
 Print Assumptions C11_writable_atomic.
 
@@ -253,3 +283,19 @@ Example C11_example :
      tables_noseq (i_s b0) = tables_noseq (i_s a) /\ map snd (i_tab b0) = map snd (i_tab a) /\ i_l b0 = Initializing) /\
   i_l b = InUse.
 Proof. vm_compute. split; [reflexivity|]. split; [|reflexivity]. eexists. repeat split; reflexivity. Qed.
+
+(* non-vacuity, and the shape the per-log resolution is about: schema v1 gives users:$id the default tier=standard; a
+   transaction under v1 creates users:1 (stored WITH the default), a transaction WITHOUT version creates users:2 (stored
+   WITHOUT it, audit mode); the copy has exactly the same two accounts.  (A stream-wide cached schema - the seeded change
+   N-C11 - would give users:2 the default in the copy.) *)
+Example C11_schemas_example :
+  let re_valid := fun _ : str => true in let re_match := fun _ _ : str => true in
+  let ch : chart := [("users"%string, Seg [] (Some ("id"%string, None, Seg [] None (Some {| ca_meta := Some [("tier"%string, Some "standard"%string)] |}))) None);
+                     ("world"%string, Seg [] None (Some {| ca_meta := None |}))] in
+  let mkc := fun d => {| o_in := ICreate [P "world" d 5] None "" [] [] false; o_ik := ""; o_dry := false |} in
+  let h := [(10, SInsertSchema "v1" ch []); (20, SWrite "v1" "" (mkc "users:1")); (30, SWrite "" "" (mkc "users:2"))] in
+  let '(a, b, e) := sroundtrip re_valid re_match fall Audit h 5000 in
+  e = None /\ map (fun x => (a_addr x, a_meta x)) (s_accounts (ss_base a)) = [("world", []); ("users:1", [("tier", "standard")]); ("users:2", [])] /\
+  map (fun x => (a_addr x, a_meta x)) (s_accounts (ss_base b)) = map (fun x => (a_addr x, a_meta x)) (s_accounts (ss_base a)) /\
+  List.length (simp_export a) = 3%nat.
+Proof. vm_compute. repeat split; reflexivity. Qed.
